@@ -527,5 +527,6 @@ func ReadMinimalKey(rd io.Reader) (key.Key, error) {
 	if err != nil {
 		return nil, err
 	}
-	return key.New(key.MinecraftNamespace, str), nil
+	// A minimal key omits the namespace only if it is the default one.
+	return parseIdentifierKey(str), nil
 }
